@@ -37,6 +37,15 @@ mixed do_op (string s, mixed hookarg) {
     e = objects ("ofilt");
     VL ("r obf " + my_oid () + " " + (this_object () ? c08_list (e) : "?") + " " + master()->live_ids ());
     break;
+  case "ret0":
+    // the running action function returns 0 ("not my verb"): user_parser goes on with the next sentence
+    act_ret = 0;
+    break;
+  case "ra":
+    a = master()->get (w[1]);
+    if (!a) { VL ("r ra " + w[1] + " " + w[2] + " !gone"); break; }
+    VL ("r ra " + w[1] + " " + w[2] + " " + a->x_ra (w[2]));
+    break;
   case "ct":
     // catch() around one op: a caught error must leave every guard as it was at the start of the catch
     VL ("ctb " + my_oid ());
@@ -46,9 +55,9 @@ mixed do_op (string s, mixed hookarg) {
   case "ld":
     p = "/c08/" + w[1];
     // typeof() sees the value the efun left on the stack (a local variable would already read as 0)
-    t = typeof (load_object (p));
+    t = typeof (d = load_object (p));
     ob = find_object (p);
-    VL ("r ld c08/" + w[1] + " " + ROID (ob) + " " + (t == "object" ? 1 : 0));
+    VL ("r ld c08/" + w[1] + " " + ROID (ob) + " " + (t == "object" ? 1 : 0) + " " + ROID (d));
     break;
   case "cl":
     ob = clone_object ("/c08/" + w[1]);
